@@ -206,6 +206,10 @@ pub enum PanicSite {
     WrappedNext,
     Clone,
     Closure,
+    /// not inside the crate: the CALLER panics while it holds a partly consumed chunk (after
+    /// having taken its k-th chunk element, counted over the whole run), so that the chunk is
+    /// dropped by the unwinding (C08: "an unconsumed chunk is dropped")
+    Consumer,
 }
 
 #[derive(Clone, Debug, Serialize, Deserialize)]
@@ -425,6 +429,8 @@ pub struct Ctx {
     pub calls: Mutex<Vec<Call>>,
     pub closure_calls: std::sync::atomic::AtomicU32,
     pub closure_panic_at: Option<u32>,
+    pub consumer_elems: std::sync::atomic::AtomicU32,
+    pub consumer_panic_at: Option<u32>,
     pub kind: Kind,
     pub len: usize,
     pub consume_nth: usize,
@@ -632,9 +638,20 @@ fn consume_chunk<T: Obs, I: ExactSizeIterator<Item = T>>(
         match nxt {
             Some(x) => {
                 let o = x.obs();
-                let _p = alloc::pause();
-                lens.push(l);
-                items.push(o);
+                {
+                    let _p = alloc::pause();
+                    lens.push(l);
+                    items.push(o);
+                }
+                if ctx.consumer_panic_at.is_some() {
+                    let c = ctx
+                        .consumer_elems
+                        .fetch_add(1, std::sync::atomic::Ordering::Relaxed);
+                    if ctx.consumer_panic_at == Some(c) {
+                        // `values` (the rest of the chunk) is dropped by the unwinding
+                        elems::inject_panic("consumer");
+                    }
+                }
             }
             None => {
                 exhausted = true;
@@ -1180,6 +1197,11 @@ where
         closure_calls: std::sync::atomic::AtomicU32::new(0),
         closure_panic_at: match cfg.panic {
             Some((PanicSite::Closure, k)) => Some(k),
+            _ => None,
+        },
+        consumer_elems: std::sync::atomic::AtomicU32::new(0),
+        consumer_panic_at: match cfg.panic {
+            Some((PanicSite::Consumer, k)) => Some(k),
             _ => None,
         },
         kind: cfg.kind,
